@@ -488,6 +488,10 @@ def run(ctx):
             arrs.append(A(sym(N1, 1.0, w=True), "float64"))
         held = N1 if refresh else N0
         i = rng.randrange(N1)
+        if N1 > N0 and rng.random() < 0.7:
+            # a node that exists only after the enlargement: row i of the held (old-size)
+            # matrices does not exist
+            i = rng.randrange(N0, N1)
         cls = "history:adjacency-" + ("same-N" if N0 == N1 else "larger" if N1 > N0 else "smaller") \
             + (":refreshed" if refresh else "")
         add_api("cfb_hist", f"call vcfb {N1} {i} {held}" if mode == "v" else f"call ecfb {N1} {held}",
